@@ -25,7 +25,7 @@ EXPLANATION = (
     "dereferences X before the base validator has asserted its type)."
 )
 NOT_DECIDED = "behaviour of pandas on exotic malformed inputs; implicit exceptions inside library calls"
-FLOORS = {"R-guard-first": 12, "R-validation-table": 16, "R-index-compare": 1, "R-assert-only": 1, "R-validation-reached": 20}
+FLOORS = {"R-guard-first": 12, "R-validation-table": 16, "R-index-compare": 1, "R-assert-only": 2, "R-validation-reached": 20}
 
 
 # ---------------------------------------------------------------------------------------------
@@ -330,6 +330,50 @@ def rule_assert_only(ctx):
         ctx.ob("R-assert-only", f"{len(SCOPE)} discretizer/carver modules::every raise statement ({n}) raises AssertionError", True, "")
 
 
+def _msg_may_raise(msg: ast.AST):
+    """Sub-expression of an assertion message that can itself raise on non-str data."""
+    def strish(e):
+        return isinstance(e, ast.JoinedStr) or (isinstance(e, ast.Constant) and isinstance(e.value, str)) or (isinstance(e, ast.Call) and call_name(e) in ("str", "repr", "format", "join")) or (
+            isinstance(e, ast.BinOp) and isinstance(e.op, ast.Add) and strish(e.left) and strish(e.right))
+    for n in ast.walk(msg):
+        if isinstance(n, ast.Call) and isinstance(n.func, ast.Attribute) and n.func.attr == "join" and n.args:
+            a = n.args[0]
+            ok = False
+            if isinstance(a, (ast.GeneratorExp, ast.ListComp)) and strish(a.elt):
+                ok = True
+            if isinstance(a, ast.Call) and call_name(a) == "map" and a.args and unparse(a.args[0]) in ("str", "repr"):
+                ok = True
+            if not ok:
+                return n
+        if isinstance(n, ast.BinOp) and isinstance(n.op, ast.Add) and (strish(n.left) != strish(n.right)):
+            other = n.right if strish(n.left) else n.left
+            if not (isinstance(other, ast.Constant)):
+                return n  # "text" + value: raises unless value is a str
+    return None
+
+
+def rule_assert_message_total(ctx):
+    """Building the message of a rejecting assertion must not raise: `', '.join(values)` on non-str
+    values turns the documented AssertionError into a TypeError."""
+    repo = ctx.repo
+    n = 0
+    bad = 0
+    for rel in SCOPE:
+        mod = repo.by_relpath.get(rel)
+        for fi in list(mod.functions.values()) + [m for c in mod.classes.values() for m in c.methods.values()]:
+            for a in asserts_in(fi):
+                if a.msg is None:
+                    continue
+                n += 1
+                hit = _msg_may_raise(a.msg)
+                if hit is not None:
+                    bad += 1
+                    ctx.ob("R-assert-only", construct(fi, f"assertion message `{short(hit, 60)}` can raise on non-str values"), False, loc(fi, hit),
+                           "str.join / str + value raises TypeError for non-str items: the rejection is not an AssertionError")
+    if bad == 0:
+        ctx.ob("R-assert-only", f"{n} assertion messages: every formatted value goes through str()/f-string", True, "")
+
+
 def rule_index_compare(ctx):
     fi = ctx.repo.find_function(f"{F_BASE}::BaseDiscretizer._prepare_data")
     defs = single_defs(fi.node)
@@ -398,6 +442,7 @@ def check(ctx):
     rule_guard_first(ctx)
     rule_validation_table(ctx)
     rule_assert_only(ctx)
+    rule_assert_message_total(ctx)
     rule_index_compare(ctx)
     ctx.analysed("classes", [c.name for c in concrete_classes(ctx.repo)])
 
@@ -433,6 +478,7 @@ MUTANTS = [
     M("ordinal values not checked", [(F_DISC, "        self._check_new_values(x_copy, features=self.ordinal_features)\n", "")], "R-validation-table", "ordinal"),
     M("sort_by accepts kruskal for binary", [(F_BIN, 'implemented_measures = ["tschuprowt", "cramerv"]', 'implemented_measures = ["tschuprowt", "cramerv", "kruskal"]')], "R-validation-table", "sort_by"),
     M("numeric check becomes ValueError", [(F_DISC, "        assert all(~not_numeric), (\n", "        if not all(~not_numeric):\n            raise ValueError(\"non numeric\")\n        assert True, (\n")], "R-assert-only"),
+    M("assertion message joins raw values", [(F_BASE, "                f\"{str(list(unexpected))} of feature '{feature}' was not provided. \"", "                f\"{', '.join(unexpected)} of feature '{feature}' was not provided. \"")], "R-assert-only", "can raise"),
     M("overlap check dropped", [(F_BC, "        assert all(\n            quali_feature not in quantitative_features\n            for quali_feature in (qualitative_features + ordinal_features)\n        ), msg\n        assert all(\n            quanti_feature not in (qualitative_features + ordinal_features)\n            for quanti_feature in quantitative_features\n        ), msg\n", "")], "R-validation-table", "disjoint"),
 ]
 BENIGN = [
